@@ -1309,7 +1309,7 @@ class Interp:
             if isinstance(v, PlaceRef):
                 return v.var, list(v.path)
             return e["var"]["id"], []
-        if k in ("deref", "borrow", "use"):
+        if k in ("deref", "borrow", "use", "ptr_coercion"):
             return self.place(e["e"], env)
         if k == "field":
             var, path = self.place(e["e"], env)
